@@ -218,3 +218,31 @@ def r18c(model: Model, rr: RuleResult):
         rr.ok("default(): returns the master at every axis default, raises when there is none")
     else:
         rr.bad(dfi, dfi.node, "default() does not select the master sitting at every axis default / does not raise when none does", construct="FontConfig.default")
+
+
+@RULES.rule("C18", "R18d", "axis defaults and master positions reach the designspace without lossy conversion", floor=2)
+def r18d(model: Model, rr: RuleResult):
+    fi = model.func("config", "load")
+    cfg = cfg_of(fi)
+    lossy = ("int", "round", "floor", "ceil", "trunc", "math.floor", "math.ceil", "math.trunc")
+    for ctor, argi, what in (("AxisPosition", 1, "master position"), ("Axis", 2, "axis default")):
+        calls = [c for c in calls_in(fi, nested=True) if norm(c.func) == ctor]
+        if not calls:
+            raise AnalysisError(f"config.load: {ctor}(...) not found")
+        for c in calls:
+            a = c.args[argi] if len(c.args) > argi else None
+            if a is None:
+                raise AnalysisError(f"config.load: {ctor} argument {argi} missing")
+            bad = [n for n in ast.walk(a) if isinstance(n, ast.Call) and norm(n.func) in lossy]
+            if isinstance(a, ast.Name):
+                for d in cfg.reaching(cfg.node_for(c), a.id):
+                    if d.value is not None:
+                        bad += [n for n in ast.walk(d.value) if isinstance(n, ast.Call) and norm(n.func) in lossy]
+            if bad:
+                rr.bad(fi, c, f"the {what} passes through {short(bad[0])}: a master at a fractional location (wdth 62.5 / 87.5) is silently moved to an integer one",
+                       construct=f"{ctor}(... {short(a)} ...)")
+            else:
+                rr.ok(f"{what}: {short(a, 50)} is passed on unchanged (float)")
+    ann = {f: norm(a) for f, a, _ in model.mod("config").cls("AxisPosition").fields}
+    if ann.get("position") == "float":
+        rr.ok("AxisPosition.position is a float")
